@@ -25,7 +25,7 @@ ASSUMPTIONS = ['shift/scale relations are judged to 2 float32 ulp of |bkg|+|c| b
                'and only the final float32 cast differs',
                '3-sigma clipping iterated to its fixed point lowers the rms of Gaussian data to 0.985 s; the '
                'Gaussian clause is judged on the median of the maps with an 8-sigma sampling band']
-MIN_COUNTERS = {'reuse_pairs_compared': 2, 'runs_ok': 30, 'shift_relations': 5, 'scale_relations': 5, 'scale_relations_far_from_one': 3, 'masked_pixels_checked': 50,
+MIN_COUNTERS = {'reuse_pairs_compared': 2, 'runs_ok': 30, 'shift_relations': 5, 'scale_relations': 5, 'scale_relations_far_from_one': 3, 'bscale_compressed_files_checked': 2, 'masked_pixels_checked': 50,
                 'far_pixels_checked': 1000, 'constant_images': 2, 'gauss_images': 1}
 BATCHES_PER_JOB = 4
 
@@ -139,7 +139,7 @@ def cases(seed, tier):
         g = int(rng.integers(2, 9))
         out.append({'kind': 'cube', 'shape': [rows, cols], 'n3': n3, 'naxis': int(rng.choice([3, 4])),
                     'seed': [seed, 'cube', i], 'grid': [g, g], 'box': [3 * g + 1, 3 * g + 1], 'cores': int(rng.choice([1, 2]))})
-    n_b = 4 if tier == 'quick' else 30
+    n_b = 8 if tier == 'quick' else 40
     for i in range(n_b):
         rows, cols = int(rng.integers(8, 70)), int(rng.integers(8, 70))
         g = int(rng.integers(2, 9))
@@ -418,13 +418,17 @@ def run(case):
                 raw = (np.round(rng.normal(0, 4, (rows, cols)) * 256) / 256).astype(F32)
             phys = (raw.astype(np.float64) * bs).astype(F32)
             p1 = os.path.join(sc, 'scaled.fits')
-            _write_bscale(p1, raw, bs)
+            wcs_h = {'CTYPE1': 'RA---SIN', 'CTYPE2': 'DEC--SIN', 'CRVAL1': 10.0, 'CRVAL2': -30.0, 'CRPIX1': cols / 2.0,
+                     'CRPIX2': rows / 2.0, 'CDELT1': -0.002, 'CDELT2': 0.002}
+            _write_bscale(p1, raw, bs, header=wcs_h)
             p2 = os.path.join(sc, 'phys.fits')
-            bh.write_fits(p2, phys)
-            # (half of the scaled runs also write their maps to files: what is returned must not depend on that)
+            bh.write_fits(p2, phys, header=wcs_h)
+            # (half of the scaled runs also write their maps to files: what is returned must not depend on that; and half of
+            # those write COMPRESSED files, which must read back in physical units as well)
             with_files = bool(case['seed'][-1] % 2 == 0)
+            comp = bool(with_files and (case['seed'][-1] // 2) % 2 == 0)
             specs = [dict(base, k=0, image=p1, shape=[rows, cols], save=os.path.join(sc, 's'),
-                          out_base=os.path.join(sc, 'scaled_out') if with_files else None),
+                          out_base=os.path.join(sc, 'scaled_out') if with_files else None, compressed=comp),
                      dict(base, k=1, image=p2, shape=[rows, cols], save=os.path.join(sc, 'p'))]
             if with_files:
                 o.count('bscale_runs_that_also_write_files')
@@ -450,6 +454,19 @@ def run(case):
                         fn = os.path.join(sc, 'scaled_out_%s.fits' % name)
                         if not os.path.exists(fn):
                             o.violate('file_missing', {'file': os.path.basename(fn), 'case': case})
+                            continue
+                        if comp:
+                            sys_path_repo()
+                            from AegeanTools import fits_tools
+                            d = fits_tools.expand(fn)[0].data           # (astropy applies the header's BSCALE on the way)
+                            g = case['grid'][0]
+                            dn, an = d[::g, ::g], arr[::g, ::g]
+                            both = np.isfinite(dn) & np.isfinite(an)
+                            o.count('bscale_compressed_files_checked')
+                            if d.shape != arr.shape or not np.allclose(dn[both], an[both], rtol=2e-7, atol=0):
+                                o.violate('bscale_file_differs_from_returned_map', {
+                                    'file': name, 'raw_dtype': case['raw'], 'bscale': bs, 'compressed': True,
+                                    'median_ratio_file_over_returned': float(np.nanmedian(dn[both] / an[both])) if both.any() else None})
                             continue
                         d = fits.getdata(fn)          # astropy applies the BSCALE of the header: physical units again
                         o.count('bscale_files_checked')
@@ -566,10 +583,12 @@ def sys_path_repo():
         sys.path.insert(0, repo)
 
 
-def _write_bscale(path, raw, bscale):
+def _write_bscale(path, raw, bscale, header=None):
     """a file whose stored array is `raw` and whose header says BSCALE=bscale"""
     from astropy.io import fits
     hdu = fits.PrimaryHDU(raw)
+    for k_, v_ in (header or {}).items():
+        hdu.header[k_] = v_
     hdu.writeto(path, overwrite=True)
     with fits.open(path, mode='update', do_not_scale_image_data=True) as h:
         h[0].header['BSCALE'] = bscale
